@@ -8,7 +8,7 @@ R10.4 argument skeleton: each evaluator has the shape of the argument it impleme
       last-row and one transition constraint in every branch) with the right data feeding each
 """
 from . import ob, flow, skeleton
-from .facts import callee, parse_path
+from .facts import pat_binds, callee, parse_path, walk
 
 CONS = {'constraint': 'all', 'constraint_first_row': 'first_row', 'constraint_last_row': 'last_row', 'constraint_transition': 'transition'}
 
@@ -156,6 +156,65 @@ def run(F, ck, tier):
             ck.ob('R10.7', 'whole:' + fn.qual, not bad, 'iterates whole sequences' if not bad else
                   'ELEMENTS DROPPED: %s uses %s: the trailing (partial) batch of looking columns is skipped, so its helper column / filter is summed by the prover but never constrained' % (fn.qual, ','.join(bad)), '%s:%d' % (fn.file, fn.line))
     ck.floor('R10.7', 'lookup / CTL evaluators and helper builders examined', nfn, 9)
+    # ---------------------------------------------------------------- R10.10 helper-column constraint: the one-pair arm is the two-pair arm with the second pair absent
+    ck.rule('R10.10', 'in eval_helper_columns the constraint for a batch of ONE pair is the constraint for TWO pairs with the second pair absent (filter 0, combination 1), as polynomials: combin * h - f. '
+                      'Any other form (e.g. (combin * h - 1) * f) leaves the helper value free on rows where the filter is off, and that value enters the running sum')
+    from . import poly as _poly
+    eh = [f for f in F.find('eval_helper_columns', crate='starky') if f.body is not None and f.name == 'eval_helper_columns']
+    if len(eh) != 1:
+        ck.ob('R10.10', 'anchor', False, 'ANCHOR-MISSING starky::lookup::eval_helper_columns (%d)' % len(eh))
+    else:
+        fn = eh[0]
+        E_ = _poly.Ev(F)
+        arms = {}
+        hid = None
+        for x in walk(fn.body):
+            if x.get('k') == 'For':
+                for b in pat_binds(x['p']):
+                    if b['n'] == 'h':
+                        hid = b['id']
+            if x.get('k') == 'Match':
+                for a in x.get('arms', []):
+                    p = a.get('p') or {}
+                    import re as _re
+                    m_ = _re.search(r'Pu128\((\d+)\)|^(\d+)$', str(p.get('v'))) if p.get('k') in ('Lit', 'PLit') else None
+                    lit = int(m_.group(1) or m_.group(2)) if m_ else None
+                    if lit in (1, 2):
+                        arms[lit] = a['b']
+
+        def arm_poly(block, absent_second):
+            env = {}
+            if hid is not None:
+                env[hid] = _poly.sym('h')
+            nc = nf = 0
+            res = None
+            for st in block.get('st', []):
+                if st.get('k') == 'Let' and 'i' in st and st['p'].get('k') == 'Bind':
+                    calls = [y.get('n') for y in walk(st['i']) if y.get('k') == 'MCall']
+                    if 'combine' in calls:
+                        env[st['p']['id']] = _poly.const(1) if (absent_second and nc == 1) else _poly.sym('c%d' % nc)
+                        nc += 1
+                    elif 'eval_filter' in calls:
+                        env[st['p']['id']] = {} if (absent_second and nf == 1) else _poly.sym('f%d' % nf)
+                        nf += 1
+                for y in walk(st):
+                    if y.get('k') == 'MCall' and y.get('n') == 'constraint' and y.get('a'):
+                        try:
+                            res = E_.ev(fn, y['a'][-1], env, 2)
+                        except _poly.Unknown:
+                            res = None
+            return res
+        if 1 not in arms or 2 not in arms:
+            ck.observe('R10.10 not applicable: eval_helper_columns no longer matches on batch lengths 1 and 2 with literal arms')
+            ck.ob('R10.10', 'helper.one-pair', True, 'not decided (no literal arms)')
+        else:
+            p1 = arm_poly(arms[1], False)
+            p2 = arm_poly(arms[2], True)
+            okh = p1 is not None and p2 is not None and p1 == p2
+            ck.ob('R10.10', 'helper.one-pair', okh, 'one-pair constraint = %s = two-pair constraint with the second pair absent' % _poly.show(p1) if okh else
+                  'HELPER COLUMN FREE WHERE THE FILTER IS OFF: the one-pair arm of eval_helper_columns constrains %s, the two-pair arm with its second pair absent constrains %s: '
+                  'with a different form the helper value is unconstrained on rows whose filter is 0 and still enters the running sum - a prover can add any amount to a lookup' % (
+                      _poly.show(p1) if p1 is not None else '(not a polynomial in combin, h, f)', _poly.show(p2) if p2 is not None else '(not evaluable)'), '%s:%d' % (fn.file, fn.line))
     ck.decided += ['native/circuit evaluator skeleton agreement', 'logUp and CTL evaluators have the shape of their argument and are fed by the right columns', 'CTL equality check and twin']
     ck.undecided += ['correctness of the log-derivative argument (algebra)', 'multiset equality (behavioural)', 'challenge provenance in multi-table callers outside this repository']
     return 'Decides structural necessary conditions of C10: evaluator skeletons (sibling agreement and argument shape), data feeding, CTL equality guard and twin.'
